@@ -22,6 +22,7 @@ type symchan struct {
 	elem       types.Type
 	envDrain   bool // the environment always accepts sends (they are recorded in drained)
 	drained    []value
+	lastSeq    int // global sequence number of the last successful send (0 = none)
 }
 
 func (ch *symchan) label() string {
@@ -91,11 +92,15 @@ func trySend(fr *frame, ch *symchan, v value) bool {
 	if ch.envDrain {
 		ch.drained = append(ch.drained, v)
 		ch.sends++
+		ex.chanSeq++
+		ch.lastSeq = ex.chanSeq
 		return true
 	}
 	if len(ch.buf) < ch.capacity {
 		ch.buf = append(ch.buf, v)
 		ch.sends++
+		ex.chanSeq++
+		ch.lastSeq = ex.chanSeq
 		ex.bump()
 		return true
 	}
